@@ -11,7 +11,7 @@ CHECKS = {
   "note": 'A Gallina function is deterministic by construction; the content of this property is in the execution and the census.',
  },
  "C09": {
-  "text": "Coq: executable model of the encoder and the request side of the cache (Async/Encoder.v) with the property proven about it for every provider, problem, cache contents, trail history, encode-request sequence and completion order: C09_model_once (nothing requested twice over the cache lifetime), C09_model_causal, C09_model_lazy (no hints: dependencies only for solvables the solver assigned true), C09_model_exact, and C09_conflict_free_exact (conflict-free problem, no hints, fresh solver, any legal run of the CDCL machine: dependencies for exactly the members of the greedy selection, candidates for exactly the names they and the root mention). The model is run on the encode requests and future completions of every real solve and must reproduce the provider-call sequence call for call on synchronous runs (where completions must also be first-in first-out) and the candidates/dependencies requests as a multiset on asynchronous ones. In addition declarative predicates over provider-call histories (Causal, Once, Exact in Async/History.v) with executable checkers proven equivalent for every provider and every history (causalb_spec, onceb_spec, exactb_spec). The real solver's call history (no hints; 1-3 solves per solver; sync and yielding runtimes) is judged by the extracted checkers; exactness is checked whenever the verified greedy oracle applies.",
+  "text": "Coq: executable model of the encoder and the request side of the cache (Async/Encoder.v) with the property proven about it for every provider, problem, cache contents, trail history, encode-request sequence and completion order: C09_model_once (nothing requested twice over the cache lifetime), C09_model_causal, C09_model_lazy (no hints: dependencies only for solvables the solver assigned true), C09_model_exact, and C09_conflict_free_exact (conflict-free problem, no hints, fresh solver, any legal run of the CDCL machine: dependencies for exactly the members of the greedy selection, candidates for exactly the names they and the root mention), C09_two_solves_once (two solves on one solver: the model's second solve, started from the cache of its first, reproduces the second real solve call for call). The model is run on the encode requests and future completions of every real solve and must reproduce the provider-call sequence call for call on synchronous runs (where completions must also be first-in first-out) and the candidates/dependencies requests as a multiset on asynchronous ones. In addition declarative predicates over provider-call histories (Causal, Once, Exact in Async/History.v) with executable checkers proven equivalent for every provider and every history (causalb_spec, onceb_spec, exactb_spec). The real solver's call history (no hints; 1-3 solves per solver; sync and yielding runtimes) is judged by the extracted checkers; exactness is checked whenever the verified greedy oracle applies.",
   "technique": "Coq theorems about an executable encoder+cache model (once / causal / lazy / exact for all inputs) in call-for-call correspondence with the implementation + Coq-verified history checkers on real provider-call histories",
   "note": "The model completes one future atomically (provider calls + result handler): the order of calls of overlapping futures and successive solves on one solver are judged by the verified history checkers on real histories.",
  },
